@@ -212,9 +212,17 @@ type RunData struct {
 	InFlight     []*Rec
 	Pending      []PendingNote
 	ClientTask   []int // task id of client c at index c+1
+	Debug        []DebugLine
 	Checked      int   // histories checked by porcupine
 	Inconclusive int   // porcupine timeouts (never reported, never a pass)
 }
+
+type DebugLine struct {
+	Seq uint64
+	S   string
+}
+
+var debugPolicy bool
 
 // PendingNote: a removal notification that was missing at some instant; the
 // final check decides whether it arrived late or never.
@@ -263,6 +271,9 @@ func renderHistory(rd *RunData, max int) []string {
 	}
 	for _, r := range sortedRecs(rd.Recs) {
 		ls = append(ls, line{r.Inv, recString(r)})
+	}
+	for _, d := range rd.Debug {
+		ls = append(ls, line{d.Seq, d.S})
 	}
 	sort.SliceStable(ls, func(i, j int) bool { return ls[i].seq < ls[j].seq })
 	var out []string
